@@ -170,8 +170,12 @@ type link struct {
 	S    uint32 // the server's own limit
 	M    uint32 // negotiated msize (after negotiate)
 	dotu bool   // negotiated dialect
-	sent int64
-	tag  uint16
+	// inForce: an earlier Tversion on this connection was accepted; M and dotu
+	// are what that exchange settled on and stay in force until the next
+	// ACCEPTED Tversion
+	inForce bool
+	sent    int64
+	tag     uint16
 }
 
 func dialSrv(srv *go9p.Srv, name string, S uint32) *link {
@@ -274,9 +278,29 @@ func expect(S, c uint32, srvDotu bool, version []byte) (refuse bool, msize uint3
 var errRefused = errors.New("Tversion refused as it must be")
 var errTooBigTversion = errors.New("Tversion itself exceeds the server's limit")
 
+// VStep is one more Tversion on the connection of a case (before or after the
+// one the case is named after); msize < 24 makes it one that must be refused.
+type VStep struct {
+	Msize   uint32 `json:"msize"`
+	Version []byte `json:"version"`
+}
+
+func (v VStep) String() string { return fmt.Sprintf("(%d %q)", v.Msize, clipS(v.Version)) }
+
 // negotiate sends Tversion(c, version) and checks the reply against expect.
+//
+// On a connection that negotiated before (at quiescence), the earlier values
+// stay in force until a Tversion is ACCEPTED: a refusal is an Rerror within the
+// msize and strictly in the dialect in force and changes nothing. An accepted
+// renegotiation grants either min(client, server msize) (the statement read
+// literally) or min(client, msize in force) (a limit that is only ever lowered);
+// which of the two is recorded as a class label. Whatever the Rversion grants
+// is THE negotiated msize from then on.
 func (l *link) negotiate(c uint32, version []byte, srvDotu bool) error {
 	tv := ref9p.Encode(&ref9p.Msg{Type: ref9p.Tversion, Tag: ref9p.NOTAG, Msize: c, Version: string(version)}, false)
+	if l.inForce && uint64(len(tv)) > uint64(l.M) {
+		return fmt.Errorf("harness: a Tversion of %d bytes on a connection with msize %d", len(tv), l.M)
+	}
 	l.write(tv)
 	f, err := l.raw()
 	if err != nil {
@@ -291,14 +315,26 @@ func (l *link) negotiate(c uint32, version []byte, srvDotu bool) error {
 		return err
 	}
 	refuse, msize, ver := expect(l.S, c, srvDotu, version)
-	// the reply to Tversion precedes any negotiated dialect: an Rversion has no
-	// dialect-dependent field, a refusing Rerror is accepted in either encoding
-	r, _, derr := ref9p.Decode(f, false)
-	if derr != nil {
-		r, _, derr = ref9p.Decode(f, true)
-	}
-	if derr != nil {
-		return violf("Tversion msize=%d: the reply is not a well-formed message in either dialect: %v: %x", c, derr, clip(f))
+	var r *ref9p.Msg
+	var derr error
+	if l.inForce && refuse {
+		// nothing is negotiated by a Tversion that is refused
+		if uint64(len(f)) > uint64(l.M) {
+			return violf("Tversion msize=%d on a connection negotiated before (msize %d): the reply has %d bytes", c, l.M, len(f))
+		}
+		if r, _, derr = ref9p.Decode(f, l.dotu); derr != nil {
+			return violf("Tversion msize=%d version=%q (to be refused) on a connection negotiated before (msize %d, 9P2000.u=%v): the reply is not well-formed in the dialect in force: %v: %x", c, clipS(version), l.M, l.dotu, derr, clip(f))
+		}
+	} else {
+		// the reply to a first Tversion precedes any negotiated dialect: an Rversion has no
+		// dialect-dependent field, a refusing Rerror is accepted in either encoding
+		r, _, derr = ref9p.Decode(f, false)
+		if derr != nil {
+			r, _, derr = ref9p.Decode(f, true)
+		}
+		if derr != nil {
+			return violf("Tversion msize=%d: the reply is not a well-formed message in either dialect: %v: %x", c, derr, clip(f))
+		}
 	}
 	if r.Tag != ref9p.NOTAG {
 		return violf("Tversion (tag NOTAG) answered with tag %d", r.Tag)
@@ -312,6 +348,19 @@ func (l *link) negotiate(c uint32, version []byte, srvDotu bool) error {
 	if r.Type != ref9p.Rversion {
 		return violf("Tversion msize=%d version=%q (server limit %d) answered with %s %q", c, clipS(version), l.S, ref9p.TypeName(r.Type), r.Ename)
 	}
+	if l.inForce {
+		lowered := min32(l.M, c)
+		switch {
+		case msize == lowered:
+		case r.Msize == msize:
+			hx.Label("renegotiation above the msize in force grants min(client, server)")
+		case r.Msize == lowered:
+			hx.Label("renegotiation above the msize in force grants min(client, msize in force)")
+			msize = lowered
+		default:
+			return violf("Tversion msize=%d on a connection with msize %d in force (server limit %d) yields msize %d, want min(client, server) = %d or min(client, in force) = %d", c, l.M, l.S, r.Msize, msize, lowered)
+		}
+	}
 	if r.Msize != msize {
 		return violf("Tversion msize=%d against a server limit of %d yields msize %d, want min = %d", c, l.S, r.Msize, msize)
 	}
@@ -321,8 +370,45 @@ func (l *link) negotiate(c uint32, version []byte, srvDotu bool) error {
 	if uint64(len(f)) > uint64(msize) {
 		return violf("Rversion of %d bytes exceeds the msize %d it announces", len(f), msize)
 	}
-	l.M, l.dotu = msize, ver == "9P2000.u"
+	l.M, l.dotu, l.inForce = msize, ver == "9P2000.u", true
 	l.cl.Dotu, l.cl.Msize = l.dotu, l.M
+	return nil
+}
+
+// probe: one request the framework refuses by itself; the Rerror must arrive
+// within the msize and strictly in the dialect in force.
+func (l *link) probe() error {
+	r, err := l.rpc(&ref9p.Msg{Type: ref9p.Tclunk, Fid: 7777})
+	if err != nil {
+		return fmt.Errorf("Tclunk of an unknown fid (msize %d, 9P2000.u=%v in force): %w", l.M, l.dotu, err)
+	}
+	if r.Type != ref9p.Rerror {
+		return fmt.Errorf("harness: Tclunk of an unknown fid answered %s", ref9p.TypeName(r.Type))
+	}
+	return nil
+}
+
+// history sends the other Tversions of a case, one at a time at quiescence;
+// once a session is in force each is followed by a probe under the values in
+// force (those of the last ACCEPTED Tversion).
+func (l *link) history(steps []VStep, srvDotu bool, where string) error {
+	for i, st := range steps {
+		was := l.inForce
+		err := l.negotiate(st.Msize, st.Version, srvDotu)
+		switch {
+		case err == errRefused:
+			hx.Label(fmt.Sprintf("history %s: refused Tversion, session in force=%v", where, was))
+		case err == nil:
+			hx.Label(fmt.Sprintf("history %s: accepted Tversion, session in force=%v", where, was))
+		default:
+			return fmt.Errorf("Tversion %d of those %s the judged one, %v of %v: %w", i+1, where, st, steps, err)
+		}
+		if l.inForce {
+			if err := l.probe(); err != nil {
+				return fmt.Errorf("after Tversion %d of those %s the judged one, %v of %v: %w", i+1, where, st, steps, err)
+			}
+		}
+	}
 	return nil
 }
 
@@ -367,6 +453,10 @@ type NegCase struct {
 	// server's, each followed by one refused request; every one of them, and the
 	// final one, must come out as on a fresh connection
 	Prior []string `json:"prior,omitempty"`
+	// Before / After: further Tversions (accepted or refused ones, any msize)
+	// sent at quiescence before / after the judged one; see link.history
+	Before []VStep `json:"before,omitempty"`
+	After  []VStep `json:"after,omitempty"`
 }
 
 var srvMsizes = []uint32{0, 24, 25, 32, 64, 128, 4096, 8192, 65560, defMsize}
@@ -440,7 +530,28 @@ func runNeg(c *NegCase) error {
 			return fmt.Errorf("harness: Tclunk of an unknown fid answered %s", ref9p.TypeName(r.Type))
 		}
 	}
+	if err := l.history(c.Before, c.SrvDotu, "before"); err != nil {
+		return err
+	}
+	wasInForce := l.inForce
 	err := l.negotiate(c.CliMsize, c.Version, c.SrvDotu)
+	if len(c.Before) > 0 && err != nil && err != errRefused && err != errTooBigTversion {
+		return fmt.Errorf("after the Tversions %v on the same connection: %w", c.Before, err)
+	}
+	if err == errRefused && wasInForce {
+		// the judged Tversion was refused on a session in force: it stays in force
+		hx.Label("neg refused, earlier session stays in force")
+		if err := l.probe(); err != nil {
+			return fmt.Errorf("after the refused Tversion (msize %d, %q) that followed %v: %w", c.CliMsize, clipS(c.Version), c.Before, err)
+		}
+		if err := l.history(c.After, c.SrvDotu, "after"); err != nil {
+			return err
+		}
+		if err := l.attach(); err != nil {
+			return fmt.Errorf("after the refused Tversion (msize %d, %q) that followed %v: %w", c.CliMsize, clipS(c.Version), c.Before, err)
+		}
+		return l.probe()
+	}
 	if len(c.Prior) > 0 && err != nil && err != errRefused && err != errTooBigTversion {
 		return fmt.Errorf("after %d earlier negotiation(s) %q on the same connection: %w", len(c.Prior), c.Prior, err)
 	}
@@ -459,6 +570,9 @@ func runNeg(c *NegCase) error {
 		return err
 	}
 	hx.Label(fmt.Sprintf("neg ok dotu=%v", l.dotu))
+	if err := l.history(c.After, c.SrvDotu, "after"); err != nil {
+		return err
+	}
 	// the negotiated values are in force: a dialect-specific request is
 	// understood and a dialect-specific reply comes back within msize
 	if err := l.attach(); err != nil {
@@ -557,9 +671,13 @@ func TestPropVersionStrings(t *testing.T) {
 // exactly as on a fresh connection; then Tattach and a refused Tclunk run in
 // the negotiated msize and dialect. And renegotiation at quiescence: one to
 // three earlier valid Tversions (msize 2^32-1, so that the server's msize stays
-// in force) each followed by one refused request, then the judged Tversion. (A
-// Tversion with requests outstanding, or after the msize was lowered, is not
-// generated: the statement does not say what it yields.)
+// in force) each followed by one refused request, then the judged Tversion. The
+// third block runs histories whose values in force matter: a session, then a
+// refused Tversion naming another dialect (the session's msize and dialect stay
+// in force, the refusal included), and renegotiation with different msizes
+// (down then up, up then down, equal; see link.negotiate for what may be
+// granted). (A Tversion with requests outstanding is not generated: the
+// statement does not say what it yields.)
 func TestEnumNegotiationSequences(t *testing.T) {
 	idx, n := 0, 0
 	prefixes := [][]uint32{{0}, {1}, {7}, {18}, {19}, {23}, {23, 0}, {1, 23}}
@@ -621,8 +739,66 @@ func TestEnumNegotiationSequences(t *testing.T) {
 			}
 		}
 	}
+	// a session in force, then a refused Tversion (mostly naming the other
+	// dialect): the refusal and everything after it stay within the msize and in
+	// the dialect of the session; and renegotiation with different msizes
+	// (down then up, up then down, equal): the granted msize is in force
+	one := func(label string, nc *NegCase) {
+		idx++
+		if hx.NShards > 1 && idx%hx.NShards != hx.Shard {
+			return
+		}
+		hx.Journal("neg", nc)
+		hx.Eval()
+		hx.Sample("neg", nc)
+		hx.Label(label)
+		hx.NonTrivial("negseq3", nc.SrvMsize, nc.CliMsize, nc.SrvDotu, nc.Version, fmt.Sprint(nc.Before), fmt.Sprint(nc.After))
+		n++
+		if err := finish(runNeg(nc)); err != nil {
+			hx.Violation("neg", nc, err.Error())
+			t.Fatalf("%+v: %v", nc, err)
+		}
+	}
+	two := []string{"9P2000", "9P2000.u"}
+	for _, sm := range []uint32{0, 64, 128, 8192} {
+		S := eff(sm)
+		for _, d := range []bool{false, true} {
+			for vi, v1 := range two {
+				for _, c1 := range uniq([]uint32{64, S, 0xFFFFFFFF}) {
+					for _, rv := range []string{two[1-vi], "9P2000.L", v1} {
+						for _, rm := range []uint32{0, 10, 23} {
+							one("neg sequence valid-then-refused", &NegCase{SrvMsize: sm, CliMsize: c1, SrvDotu: d, Version: []byte(v1), After: []VStep{{rm, []byte(rv)}}})
+							if rm != 10 {
+								one("neg sequence valid-then-refused (judged)", &NegCase{SrvMsize: sm, CliMsize: rm, SrvDotu: d, Version: []byte(rv), Before: []VStep{{c1, []byte(v1)}}})
+							}
+						}
+					}
+				}
+			}
+			var pairs [][2]uint32
+			for _, lo := range uniq([]uint32{24, 32, S - 1}) {
+				for _, hi := range uniq([]uint32{lo + 1, S, 0xFFFFFFFF}) {
+					pairs = append(pairs, [2]uint32{lo, hi}, [2]uint32{hi, lo})
+				}
+			}
+			pairs = append(pairs, [2]uint32{32, 32}, [2]uint32{S, S}, [2]uint32{S + 1, S + 1})
+			for _, pr := range pairs {
+				for _, v1 := range two {
+					for _, v2 := range two {
+						one("neg sequence renegotiated msize", &NegCase{SrvMsize: sm, CliMsize: pr[1], SrvDotu: d, Version: []byte(v2), Before: []VStep{{pr[0], []byte(v1)}}})
+					}
+				}
+			}
+			for vi, v := range two {
+				o := []byte(two[1-vi])
+				one("neg sequence renegotiated msize", &NegCase{SrvMsize: sm, CliMsize: 28, SrvDotu: d, Version: []byte(v), Before: []VStep{{32, o}, {S, []byte(v)}}})
+				one("neg sequence renegotiated msize", &NegCase{SrvMsize: sm, CliMsize: S, SrvDotu: d, Version: []byte(v), Before: []VStep{{S, o}, {32, []byte(v)}, {5, o}}})
+				one("neg sequence renegotiated msize", &NegCase{SrvMsize: sm, CliMsize: 0xFFFFFFFF, SrvDotu: d, Version: []byte(v), Before: []VStep{{40, o}, {23, []byte(v)}}, After: []VStep{{0, o}}})
+			}
+		}
+	}
 	hx.ExtraAdd("negotiation_sequences", int64(n))
-	hx.Exhaustive("negotiation sequences on one connection: refused Tversion msize {0, 1, 7, 18, 19, 23, (23,0), (1,23)} then valid msize {24, 64, 128, s-1, s, s+1, 2^32-1} x server msize {unset, 24, 25, 64, 128, 8192} x server 9P2000.u on/off x version {9P2000, 9P2000.u} (the refused ones carry the other string), followed by Tattach and a refused Tclunk; and renegotiation at quiescence: earlier valid Tversions {(plain), (.u), (plain,.u), (.u,plain), (plain,plain), (.u,.u,plain)} with msize 2^32-1, each followed by a refused Tclunk, then version {9P2000, 9P2000.u, 9P1999} x client msize {64, s, 2^32-1} x server msize {unset, 64, 128, 8192} x server 9P2000.u on/off")
+	hx.Exhaustive("negotiation sequences on one connection: refused Tversion msize {0, 1, 7, 18, 19, 23, (23,0), (1,23)} then valid msize {24, 64, 128, s-1, s, s+1, 2^32-1} x server msize {unset, 24, 25, 64, 128, 8192} x server 9P2000.u on/off x version {9P2000, 9P2000.u} (the refused ones carry the other string), followed by Tattach and a refused Tclunk; and renegotiation at quiescence: earlier valid Tversions {(plain), (.u), (plain,.u), (.u,plain), (plain,plain), (.u,.u,plain)} with msize 2^32-1, each followed by a refused Tclunk, then version {9P2000, 9P2000.u, 9P1999} x client msize {64, s, 2^32-1} x server msize {unset, 64, 128, 8192} x server 9P2000.u on/off; and, for server msize {unset, 64, 128, 8192} x server 9P2000.u on/off: valid (msize {64, s, 2^32-1}, either version string) then refused (msize {0, 10, 23}, version {the other one, 9P2000.L, the same}) then probe / Tattach / probe under the values of the valid one; renegotiation (lo, hi) and (hi, lo) for lo {24, 32, s-1} x hi {lo+1, s, 2^32-1} and equal (32, s, s+1) x both version strings for both steps, plus three longer histories (down-up-down, up-down-refused-up, down-refused-up-refused), each accepted Tversion followed by a refused Tclunk decoded in the dialect in force")
 }
 
 // ---------------------------------------------------------------------------
@@ -782,6 +958,9 @@ func TestEnumClient(t *testing.T) {
 type Req struct {
 	Kind string `json:"kind"` // stat, serr, walk, read, aread, open, inuse, unknown, toolarge
 	Knob int    `json:"knob"` // stat: name length; serr: error text length; walk: number of names; read/aread: count
+	// Rel (stat, serr, read, aread): the knob is the msize in force plus Knob
+	// (sessions whose msize is only known once the last Rversion is in)
+	Rel bool `json:"rel,omitempty"`
 }
 
 type Sess struct {
@@ -794,6 +973,9 @@ type Sess struct {
 	Rounds   [][]Req `json:"rounds"`
 	Hold     []bool  `json:"hold"`  // per round: all forwarded requests are inside the implementation at the same time
 	Split    bool    `json:"split"` // one write per frame instead of one write per round
+	// Before / After: further Tversions on the connection (see link.history)
+	Before []VStep `json:"before,omitempty"`
+	After  []VStep `json:"after,omitempty"`
 }
 
 type planned struct {
@@ -816,6 +998,20 @@ func errText(n int) string {
 // plan builds the request for r on fid (a clone of the root) and predicts the
 // implementation's answer from the request alone.
 func plan(l *link, r Req, fid, aux uint32, seq int) (*planned, error) {
+	if r.Rel {
+		k := int64(l.M) + int64(r.Knob)
+		switch r.Kind {
+		case "stat":
+			k = clampI(k, 1, 64900)
+		case "serr":
+			k = clampI(k, 1, 65535)
+		case "read", "aread":
+			k = clampI(k, 0, 0xFFFFFFFF)
+		default:
+			return nil, fmt.Errorf("harness: request kind %q has no relative knob", r.Kind)
+		}
+		r.Knob, r.Rel = int(k), false
+	}
 	p := &planned{req: r, forward: true}
 	switch r.Kind {
 	case "stat":
@@ -943,8 +1139,20 @@ func runSess(c *Sess) error {
 	if c.Dotu {
 		ver = "9P2000.u"
 	}
-	if err := l.negotiate(c.CliMsize, []byte(ver), c.SrvDotu); err != nil {
+	if err := l.history(c.Before, c.SrvDotu, "before"); err != nil {
 		return err
+	}
+	if err := l.negotiate(c.CliMsize, []byte(ver), c.SrvDotu); err != nil {
+		if len(c.Before) > 0 {
+			return fmt.Errorf("after the Tversions %v on the same connection: %w", c.Before, err)
+		}
+		return err
+	}
+	if err := l.history(c.After, c.SrvDotu, "after"); err != nil {
+		return err
+	}
+	if len(c.Before)+len(c.After) > 0 {
+		hx.Label(fmt.Sprintf("session after %d+%d other Tversions", len(c.Before), len(c.After)))
 	}
 	hx.Label(fmt.Sprintf("session msize=%s lowered-by=%s dotu=%v", sizeClass(l.M), map[bool]string{true: "client", false: "server-or-equal"}[l.S > l.M], l.dotu))
 	if c.Auth {
@@ -1228,6 +1436,45 @@ func genSess(t *rapid.T) *Sess {
 		}
 	}
 	dotu := c.SrvDotu && c.Dotu
+	// the msize the walk requests have to fit (the lowest msize any reading of
+	// the statement lets the sequence of Tversions grant)
+	Mlow := M
+	hist := rapid.SampledFrom([]string{"", "", "", "", "", "valid-refused", "refused-between", "down-up", "up-down", "equal"}).Draw(t, "history")
+	wish := map[bool]string{false: "9P2000", true: "9P2000.u"}
+	other := []byte(wish[!c.Dotu])
+	refusedStep := func() VStep {
+		return VStep{Msize: rapid.SampledFrom([]uint32{0, 1, 10, 19, 20, 21, 23}).Draw(t, "refusedmsize"),
+			Version: rapid.SampledFrom([][]byte{other, other, other, []byte(wish[c.Dotu]), []byte("9P2000.L"), {}}).Draw(t, "refusedversion")}
+	}
+	anyVer := func() []byte { return []byte(wish[rapid.Bool().Draw(t, "otherver")]) }
+	switch hist {
+	case "valid-refused":
+		// the judged Tversion, then refused ones naming (mostly) the other dialect
+		for n := rapid.IntRange(1, 2).Draw(t, "nrefused"); n > 0; n-- {
+			c.After = append(c.After, refusedStep())
+		}
+	case "refused-between":
+		c.Before = []VStep{{Msize: 0xFFFFFFFF, Version: anyVer()}, refusedStep()}
+	case "down-up":
+		var lower []uint32
+		for _, m := range sessMsizes {
+			if m < M {
+				lower = append(lower, m)
+			}
+		}
+		if len(lower) > 0 {
+			Mlow = rapid.SampledFrom(lower).Draw(t, "firstmsize")
+			c.Before = []VStep{{Msize: Mlow, Version: anyVer()}}
+			if rapid.Bool().Draw(t, "refusedtoo") {
+				c.Before = append(c.Before, refusedStep())
+			}
+		}
+	case "up-down":
+		c.Before = []VStep{{Msize: rapid.SampledFrom([]uint32{M + 1, 2*M + 7, 1 << 20, 0xFFFFFFFF}).Draw(t, "firstmsize"), Version: anyVer()}}
+	case "equal":
+		c.Before = []VStep{{Msize: c.CliMsize, Version: anyVer()}}
+	}
+	renegotiated := len(c.Before)+len(c.After) > 0
 	c.Pre = rapid.SampledFrom([]int{0, 0, 0, 1, 2, 4}).Draw(t, "pre")
 	c.Auth = rapid.IntRange(0, 3).Draw(t, "auth") == 0
 	c.Split = rapid.Bool().Draw(t, "split")
@@ -1236,7 +1483,18 @@ func genSess(t *rapid.T) *Sess {
 		k := rapid.IntRange(1, 4).Draw(t, "inflight")
 		var round []Req
 		for j := 0; j < k; j++ {
-			round = append(round, genReq(t, M, dotu, c.Auth))
+			r := genReq(t, M, dotu, c.Auth)
+			if renegotiated {
+				switch r.Kind {
+				case "stat", "serr", "read", "aread":
+					r.Knob, r.Rel = r.Knob-int(M), true
+				case "walk":
+					if maxn := (int(Mlow) - 17) / 3; r.Knob > maxn {
+						r.Knob = maxn
+					}
+				}
+			}
+			round = append(round, r)
 		}
 		c.Rounds = append(c.Rounds, round)
 		c.Hold = append(c.Hold, rapid.Bool().Draw(t, "hold"))
@@ -1306,6 +1564,12 @@ type FrameCase struct {
 	Dotu     bool   `json:"dotu"`
 	Size     uint32 `json:"size"`
 	Mode     string `json:"mode"` // hdr: the 7-byte header only; hdr4/hdr5/hdr6: only its first 4/5/6 bytes; full: header followed by data; split: header and data in two writes
+	// Before / After: further Tversions on the connection (see link.history); Rel:
+	// the announced size is the msize in force when the frame is sent plus Size
+	// (as int32) instead of Size itself
+	Before []VStep `json:"before,omitempty"`
+	After  []VStep `json:"after,omitempty"`
+	Rel    bool    `json:"rel,omitempty"`
 }
 
 // walkOfSize builds a well-formed Twalk of exactly n bytes (n == 17 or n >= 19).
@@ -1331,6 +1595,16 @@ func walkOfSize(n int, tag uint16) *ref9p.Msg {
 	return m
 }
 
+func clampI(v, lo, hi int64) int64 {
+	if v < lo {
+		return lo
+	}
+	if v > hi {
+		return hi
+	}
+	return v
+}
+
 func min(a, b int) int {
 	if a < b {
 		return a
@@ -1338,7 +1612,8 @@ func min(a, b int) int {
 	return b
 }
 
-func runFrame(c *FrameCase) error {
+func runFrame(fc *FrameCase) error {
+	c := *fc
 	S := eff(c.SrvMsize)
 	sv := script.NewServer(script.Config{Msize: c.SrvMsize, Dotu: true})
 	l := dialSrv(sv.Srv, "c12f", S)
@@ -1348,13 +1623,25 @@ func runFrame(c *FrameCase) error {
 	if c.Dotu {
 		ver = "9P2000.u"
 	}
+	if err := l.history(c.Before, true, "before"); err != nil {
+		return err
+	}
 	if err := l.negotiate(c.CliMsize, []byte(ver), true); err != nil {
+		return err
+	}
+	if err := l.history(c.After, true, "after"); err != nil {
 		return err
 	}
 	if err := l.attach(); err != nil {
 		return err
 	}
 	M := l.M
+	if c.Rel {
+		c.Size = M + c.Size // modulo 2^32: Size carries an int32
+	}
+	if len(c.Before)+len(c.After) > 0 {
+		hx.Label(fmt.Sprintf("frame after %d+%d other Tversions, size-msize=%d", len(c.Before), len(c.After), clampI(int64(c.Size)-int64(M), -3, 3)))
+	}
 	legal := c.Size >= 7 && c.Size <= M
 	wellFormed := c.Size == 17 || (c.Size >= 19 && c.Size <= 4*defMsize)
 	tag := l.nextTag()
@@ -1501,6 +1788,73 @@ func TestEnumFrameSizes(t *testing.T) {
 	}
 	hx.ExtraAdd("frame_probes", int64(n))
 	hx.Exhaustive("announced frame sizes {0..8, 17, 19, 20, msize-1, msize, msize+1, msize+2, 2*msize, 2^16, 2^31, 2^32-1} x {7-byte header only, header followed by data in one write, in two writes, only the first 4 / 5 / 6 bytes} x dialect x negotiated msize {24, 25, 32, 64, 128, 4096, 8192, 65560, 1 MiB+24 set by the server; 24, 128, 8192 lowered by the client}")
+}
+
+// TestEnumFramesRenegotiated: the frame-size probes on connections that saw
+// more than one Tversion: the limit is the msize granted by the last ACCEPTED
+// Tversion (a refused one changes nothing), whether it was lowered, raised or
+// repeated. Sizes are taken relative to the msize in force (the last Rversion)
+// and absolutely around every value some reading of the statement could grant.
+func TestEnumFramesRenegotiated(t *testing.T) {
+	idx, n := 0, 0
+	two := []string{"9P2000", "9P2000.u"}
+	for _, sm := range []uint32{0, 8192, 1024} {
+		S := eff(sm)
+		for di, dotu := range []bool{false, true} {
+			o := []byte(two[1-di])
+			type hist struct {
+				before []VStep
+				c      uint32
+				after  []VStep
+			}
+			hs := []hist{
+				{before: []VStep{{64, o}}, c: S},
+				{before: []VStep{{256, o}}, c: 0xFFFFFFFF},
+				{before: []VStep{{0xFFFFFFFF, o}}, c: 128},
+				{before: []VStep{{128, o}}, c: 128},
+				{c: 128, after: []VStep{{10, o}}},
+				{c: 0xFFFFFFFF, after: []VStep{{23, o}}},
+				{before: []VStep{{64, o}, {0, o}}, c: S},
+			}
+			for _, h := range hs {
+				type sz struct {
+					v   uint32
+					rel bool
+				}
+				rm1 := int32(-1)
+				sizes := []sz{{uint32(rm1), true}, {0, true}, {1, true}, {2, true}}
+				var abs []uint32
+				for _, st := range append(append([]VStep{}, h.before...), VStep{Msize: h.c}) {
+					if st.Msize >= iohdr {
+						abs = append(abs, min32(S, st.Msize), min32(S, st.Msize)+1)
+					}
+				}
+				for _, a := range uniq(abs) {
+					sizes = append(sizes, sz{a, false})
+				}
+				for _, z := range sizes {
+					for _, mode := range []string{"hdr", "full", "split"} {
+						idx++
+						if hx.NShards > 1 && idx%hx.NShards != hx.Shard {
+							continue
+						}
+						fc := &FrameCase{SrvMsize: sm, CliMsize: h.c, Dotu: dotu, Size: z.v, Rel: z.rel, Mode: mode, Before: h.before, After: h.after}
+						hx.Journal("frame", fc)
+						hx.Eval()
+						hx.Sample("frame", fc)
+						hx.NonTrivial("frame-reneg", sm, h.c, dotu, z.v, z.rel, mode, fmt.Sprint(h.before), fmt.Sprint(h.after))
+						n++
+						if err := finish(runFrame(fc)); err != nil {
+							hx.Violation("frame", fc, err.Error())
+							t.Fatalf("%+v: %v", fc, err)
+						}
+					}
+				}
+			}
+		}
+	}
+	hx.ExtraAdd("frame_probes", int64(n))
+	hx.Exhaustive("frame sizes on connections with several Tversions: server msize {default, 8192, 1024} x dialect x histories {64 then s, 256 then 2^32-1, 2^32-1 then 128, 128 then 128, 128 then refused(10), 2^32-1 then refused(23), 64 then refused(0) then s} (the other Tversions name the other dialect) x announced size {granted-1, granted, granted+1, granted+2, and v, v+1 for every min(server, client) of the history} x {header only, one write, two writes}")
 }
 
 // TestPropFrames draws announced sizes from the whole 32-bit range.
@@ -1793,6 +2147,9 @@ type UfsCase struct {
 	CliMsize uint32 `json:"cli_msize"`
 	SrvDotu  bool   `json:"srv_dotu"`
 	Dotu     bool   `json:"dotu"`
+	// Before / After: further Tversions on the connection (see link.history)
+	Before []VStep `json:"before,omitempty"`
+	After  []VStep `json:"after,omitempty"`
 }
 
 var (
@@ -1846,8 +2203,20 @@ func runUfs(c *UfsCase) error {
 	if c.Dotu {
 		ver = "9P2000.u"
 	}
-	if err := l.negotiate(c.CliMsize, []byte(ver), c.SrvDotu); err != nil {
+	if err := l.history(c.Before, c.SrvDotu, "before"); err != nil {
 		return err
+	}
+	if err := l.negotiate(c.CliMsize, []byte(ver), c.SrvDotu); err != nil {
+		if len(c.Before) > 0 {
+			return fmt.Errorf("after the Tversions %v on the same connection: %w", c.Before, err)
+		}
+		return err
+	}
+	if err := l.history(c.After, c.SrvDotu, "after"); err != nil {
+		return err
+	}
+	if len(c.Before)+len(c.After) > 0 {
+		hx.Label(fmt.Sprintf("ufs after %d+%d other Tversions", len(c.Before), len(c.After)))
 	}
 	M := l.M
 	if hx.IsKnown(findErrNoFit) && M < 128 {
@@ -1891,6 +2260,10 @@ func runUfs(c *UfsCase) error {
 				return err
 			}
 			if r.Type != ref9p.Rread {
+				if cnt <= M-iohdr {
+					// an Rread with that much data is a message of at most msize bytes
+					return violf("Ufs: Tread offset %d count %d of an open 70000-byte file was refused (%q) although count <= msize - %d (negotiated msize %d)", off, cnt, r.Ename, iohdr, M)
+				}
 				continue
 			}
 			hx.NonTrivial("ufsread", S, M, l.dotu, off, cnt)
@@ -1977,6 +2350,35 @@ func TestEnumUfs(t *testing.T) {
 			}
 		}
 	}
+	two := []string{"9P2000", "9P2000.u"}
+	for _, M := range []uint32{128, 300, 4096, 8216} {
+		for _, sd := range []bool{false, true} {
+			for ci, cd := range []bool{false, true} {
+				o := []byte(two[1-ci])
+				for _, uc := range []*UfsCase{
+					{SrvMsize: 0, CliMsize: M, Before: []VStep{{M / 2, o}}},
+					{SrvMsize: M, CliMsize: 0xFFFFFFFF, Before: []VStep{{M / 2, o}}},
+					{SrvMsize: 0, CliMsize: M, Before: []VStep{{2 * M, o}}},
+					{SrvMsize: 0, CliMsize: M, After: []VStep{{10, o}}},
+					{SrvMsize: M, CliMsize: 0xFFFFFFFF, Before: []VStep{{0xFFFFFFFF, []byte(two[ci])}, {0, o}}},
+				} {
+					idx++
+					if hx.NShards > 1 && idx%hx.NShards != hx.Shard {
+						continue
+					}
+					uc.SrvDotu, uc.Dotu = sd, cd
+					hx.Journal("ufs", uc)
+					hx.Eval()
+					hx.Sample("ufs", uc)
+					if err := finish(runUfs(uc)); err != nil {
+						hx.Violation("ufs", uc, err.Error())
+						t.Fatalf("%+v: %v", uc, err)
+					}
+				}
+			}
+		}
+	}
+	hx.Exhaustive("Ufs on connections with several Tversions: msize m {128, 300, 4096, 8216} x dialect wishes x histories {m/2 then m (server default), m/2 then 2^32-1 (server m), 2m then m, m then refused(10), 2^32-1 then refused(0) then 2^32-1 (server m)}, the other Tversions naming the other dialect; the whole Ufs conversation under the msize the last Rversion granted")
 	hx.Exhaustive("Ufs: negotiated msize {24, 25, 28, 31, 37, 38, 42, 64, 100, 128, 256, 300, 4096, 8216, 65560, 1 MiB+24} x lowered by client/server x dialect wishes; Tread of a 70000-byte file at offsets {0, 1, 69990, 70000, 70001} x counts {0, 1, 2, 7, msize-26..msize-23, msize-11, msize, 2^16, 2^31, 2^32-24, 2^32-1}; Rstat of a short and a 183-byte name; Rerror for a missing name; directory reads")
 }
 
